@@ -146,6 +146,15 @@ def step (st : St) (toks : List String) : St × String :=
         -- constructed with the first triple, re-initialised with the second: no state survives
         let s := smartInit (vecOf a 3 3)
         (st, unwords (fmtMat s.R.get ++ fmtMat s.dRdX.get ++ fmtMat s.dRdY.get ++ fmtMat s.dRdZ.get))
+      | "smart.hist", n =>
+        -- a history of constructor / init calls (both overload families) on one object: groups (kind a b c); the matrices are a
+        -- function of the LAST angle triple only (`smartInit`), whatever came before
+        if n < 4 || n % 4 != 0 then (st, "bad-op") else
+        let kinds := (List.range (n / 4)).map (fun g => a[4 * g]!)
+        if !(kinds.drop 1).all (fun k => k == 2.0 || k == 3.0) || !(kinds.head? matches some _) then (st, "bad-op") else
+        if !(kinds.take 1).all (fun k => k == 0.0 || k == 1.0 || k == 2.0 || k == 3.0) then (st, "bad-op") else
+        let s := smartInit (vecOf a (n - 3) 3)
+        (st, unwords (fmtMat s.R.get ++ fmtMat s.dRdX.get ++ fmtMat s.dRdY.get ++ fmtMat s.dRdZ.get))
       | "smart.dRT", 6 =>
         let s := smartInit (vecOf a 0 3)
         let t := vecOf a 3 3
